@@ -506,9 +506,9 @@ theorem protected_canon {m : GoMap} (hf : FlatMap m) (hfix : ∀ e ∈ m, decEnt
     have hid : (sortEntries m).map decEntry = sortEntries m :=
       map_id_of_fixed (fun e he => hfix e (hp.mem_iff.mp he))
     refine ⟨(mapWire m).bytes, ?_, fun h => absurd h hne, fun _ => rfl, ?_, ?_⟩
-    · rw [encodeBucket_flat hf true hv hne]; rfl
+    · rw [encodeBucket_flat hf true hv hne (fun h => Bool.noConfusion h)]; rfl
     · rw [decProtectedContent_mapWire hf hok hlen, if_pos hvn, hid]
-    · rw [encodeBucket_flat hf.sorted true hvs (sortEntries_ne_nil hne), mapWire_sortEntries]; rfl
+    · rw [encodeBucket_flat hf.sorted true hvs (sortEntries_ne_nil hne) (fun h => Bool.noConfusion h), mapWire_sortEntries]; rfl
 
 /-- the same for the unprotected bucket: the encoder emits the canonical map item -/
 theorem unprotected_canon {um : GoMap} (hf : FlatMap um) (hfix : ∀ e ∈ um, normEntry e = e)
@@ -524,16 +524,17 @@ theorem unprotected_canon {um : GoMap} (hf : FlatMap um) (hfix : ∀ e ∈ um, n
   have hvs : validateHeaderParameters (sortEntries um) false = true := by
     rw [C13.validate_perm_invariant _ _ hp]; exact hv
   have he : ∀ g : GoMap, FlatMap g → validateHeaderParameters g false = true →
+      g.length ≤ maxElems →
       encodeBucket encCfg false none g = some (mapWire g).bytes := by
-    intro g hg hvg
+    intro g hg hvg hlg
     by_cases hne : g = []
     · subst hne
       rw [mapWire_nil_bytes]
       simp [encodeBucket]
-    · rw [encodeBucket_flat hg false hvg hne]; rfl
-  refine ⟨he um hf hv, mapWire_wf hf hlen, fun t d hd => mapWire_inLimits hlen t d hd, ?_, ?_⟩
+    · rw [encodeBucket_flat hg false hvg hne (fun _ => hlg)]; rfl
+  refine ⟨he um hf hv hlen, mapWire_wf hf hlen, fun t d hd => mapWire_inLimits hlen t d hd, ?_, ?_⟩
   · rw [decUnprot_mapWire hf hu hv, hid]
-  · rw [he _ hf.sorted hvs, mapWire_sortEntries]
+  · rw [he _ hf.sorted hvs (by rw [sortEntries_length]; exact hlen), mapWire_sortEntries]
 
 /-! ### a wire-side condition that makes the decoded maps flat -/
 
@@ -1093,7 +1094,8 @@ theorem ex_marshal_cleared (m : Sign1Msg) (hd : Sign1.unmarshal true exB = .ok m
     simp [marshalUnprotected, exUm, GoVal.modelledPairs, GoVal.modelled, encodeBucket, encCfg,
       validateHeaderParameters, validateLoop, normalizeLabel, wrap64, checkParam, lbl,
       tstrOrUintOK, canUint, IntKind.signed, encodePairs, encodeAny, encInt, encHead,
-      HW.shortest, headBytes, ex_sort1, concatPairs]
+      HW.shortest, headBytes, ex_sort1, concatPairs, wellformedNoTags, parseTop,
+    fuelFor, parseItem, parsePairs, parseHead, maxNested, maxElems]
   simp [Sign1.marshal, Sign1.content, Hdrs.marshal, hP, hU, hiv, blen, bind, Out.bind, exB',
     optBytesEnc, encBstr, encHead, HW.shortest, headBytes]
 
